@@ -636,4 +636,154 @@ theorem blockSamples_eq {β} (U : List β) (k P l : Nat) (hk : 0 < k) (hP : 0 < 
     have : U.length / k * k ≤ (l + 1) * P * k := Nat.mul_le_mul_right _ h
     omega
 
+theorem Sep.of_lt {δ : Int} (hδ : 0 < δ) {l : List Int} (h : Sep δ id l) {x y : Int}
+    (hx : x ∈ l) (hy : y ∈ l) (hxy : x < y) : x + δ ≤ y := by
+  rcases List.getElem_of_mem hx with ⟨i, hi, rfl⟩
+  rcases List.getElem_of_mem hy with ⟨j, hj, rfl⟩
+  rcases Nat.lt_trichotomy i j with hij | hij | hij
+  · exact h.getElem_lt hj hij
+  · subst hij; omega
+  · have := h.getElem_lt hi hij
+    simp only [id] at this
+    omega
+
+/-- a sublist of a list without repetitions is the filter of the list by membership -/
+theorem sublist_eq_filter_mem {δ : Int} (hδ : 0 < δ) {l l' : List Int} (hsep : Sep δ id l)
+    (hs : l'.Sublist l) : l' = l.filter (fun t => decide (t ∈ l')) := by
+  induction hs with
+  | slnil => simp
+  | @cons l₁ l₂ a hs ih =>
+    have hsep' : Sep δ id l₂ := (List.pairwise_cons.mp hsep).2
+    have ha : a ∉ l₁ := by
+      intro hmem
+      have := (List.pairwise_cons.mp hsep).1 a (hs.subset hmem)
+      simp only [id] at this; omega
+    rw [List.filter_cons, if_neg (by simpa using ha)]
+    exact ih hsep'
+  | @cons_cons l₁ l₂ a hs ih =>
+    have hsep' : Sep δ id l₂ := (List.pairwise_cons.mp hsep).2
+    rw [List.filter_cons, if_pos (by simp)]
+    congr 1
+    have ih := ih hsep'
+    conv => lhs; rw [ih]
+    apply List.filter_congr
+    intro x hx
+    have hne : x ≠ a := by
+      intro h; subst h
+      have := (List.pairwise_cons.mp hsep).1 x hx
+      simp only [id] at this; omega
+    simp [hne]
+
+theorem allTs_sep (w : Wave) (hdt : 0 < w.dt) : Sep w.dt id w.allTs := (times_sep w.dt hdt _ _).1
+
+theorem usedTs_sublist (w : Wave) : w.usedTs.Sublist w.allTs := usedOf_sublist _ _
+
+/-! ## frames -/
+
+theorem padRows_length (n : Nat) (pix : List Int) : (padRows n pix).length = numBlocks pix.length n := by
+  rw [padRows_eq]; simp
+
+theorem padRows_single_flatten (n : Nat) (pix : List Int) (h : numBlocks pix.length n = 1) :
+    (padRows n pix).flatten = (List.range n).map fun r => pix.getD r 0 := by
+  rw [padRows_eq, h]
+  simp [List.range_succ_eq_map]
+
+/-- with one (possibly incomplete) frame the repaired single-frame formula is the line formula with
+    `L·P` pixels per block; with several frames the code uses that formula anyway -/
+theorem frameRanges_excl (w : Wave) (hdt : 0 < w.dt) (hs : 0 ≤ w.start) (k : Nat)
+    (hk : w.pixelSize = some k) (P L : Nat) (hPL : 0 < L * P) (δ : Int) :
+    w.frameRanges P L false δ = (w.lineRangesExcl (L * P) δ).map some := by
+  have hk0 := pixelSize_pos w k hk
+  unfold Wave.frameRanges
+  rw [pixReduce_min w hdt k hk, pixReduce_max w hdt k hk]
+  simp only [padRows_length, List.length_map, List.length_range]
+  by_cases h1 : numBlocks (w.usedTs.length / k) (L * P) = 1
+  · rw [if_pos h1, lineRangesExcl_spec w hdt hs k hk (L * P) hPL δ]
+    unfold Wave.numPix
+    rw [h1]
+    have h0 : 0 * (L * P) < w.usedTs.length / k := (lt_numBlocks_iff _ _ _ hPL).mp (by omega)
+    have hb := block_max w.usedTs w.dt (by omega) (usedTs_sep w hdt)
+      (fun y hy => by have := usedTs_ge w hdt y hy; omega) k (L * P) 0 hk0 hPL h0
+    rw [padRows_single_flatten _ _ (by simpa using h1), padRows_single_flatten _ _ (by simpa using h1)]
+    simp only [Nat.zero_mul, Nat.zero_add] at hb h0
+    rw [hb]
+    match hn : L * P, hPL with
+    | n + 1, _ =>
+      simp only [List.range_succ_eq_map, List.map_cons, List.headD_cons, Option.map_some]
+      rw [getD_map_range _ _ _ h0]
+      simp [List.range_succ_eq_map]
+  · rw [if_neg h1]; simp
+
+theorem frameRanges_incl_multi (w : Wave) (k : Nat) (hdt : 0 < w.dt)
+    (hk : w.pixelSize = some k) (P L : Nat) (δ : Int)
+    (h1 : numBlocks (w.usedTs.length / k) (L * P) ≠ 1) :
+    w.frameRanges P L true δ = w.lineRangesIncl (L * P) := by
+  unfold Wave.frameRanges
+  rw [pixReduce_min w hdt k hk, pixReduce_max w hdt k hk]
+  simp only [padRows_length, List.length_map, List.length_range]
+  rw [if_neg h1]; simp
+
+/-- the pinned single-frame start (`np.min` over the zero-padded frame) is the repaired one unless
+    the only frame is incomplete -/
+theorem framePinned_eq (w : Wave) (hdt : 0 < w.dt) (k : Nat)
+    (hk : w.pixelSize = some k) (P L : Nat) (hPL : 0 < L * P) (incl : Bool) (δ : Int)
+    (h : numBlocks (w.usedTs.length / k) (L * P) ≠ 1 ∨ w.usedTs.length / k = L * P) :
+    w.frameRangesPinned P L incl δ = w.frameRanges P L incl δ := by
+  have hk0 := pixelSize_pos w k hk
+  unfold Wave.frameRangesPinned Wave.frameRanges
+  rw [pixReduce_min w hdt k hk, pixReduce_max w hdt k hk]
+  simp only [padRows_length, List.length_map, List.length_range]
+  by_cases h1 : numBlocks (w.usedTs.length / k) (L * P) = 1
+  · rw [if_pos h1, if_pos h1]
+    have hm : w.usedTs.length / k = L * P := by
+      rcases h with h | h
+      · exact absurd h1 h
+      · exact h
+    rw [padRows_single_flatten _ _ (by simpa using h1)]
+    congr 4
+    match hn : L * P, hPL with
+    | n + 1, _ =>
+      have hsep := usedTs_sep w hdt
+      have h0 : 0 < w.usedTs.length / k := by omega
+      have hb0 := mul_succ_le_of_lt_div _ _ _ hk0 h0
+      apply listMin_eq_of
+      · simp [List.range_succ_eq_map]
+      · intro y hy
+        rcases List.mem_map.mp hy with ⟨r, hr, rfl⟩
+        have hr := List.mem_range.mp hr
+        simp only [List.range_succ_eq_map, List.map_cons, List.headD_cons]
+        rw [getD_map_range _ _ _ h0, getD_map_range _ _ _ (by omega)]
+        have hbr := mul_succ_le_of_lt_div r k w.usedTs.length hk0 (by omega)
+        rw [getD_eq _ _ (by omega), getD_eq _ _ (by omega)]
+        exact hsep.getElem_le (by omega) (by omega) (by simp)
+  · rw [if_neg h1, if_neg h1]
+
+/-! ## dead time included -/
+
+theorem lineRangesIncl_spec (w : Wave) (hdt : 0 < w.dt) (k : Nat)
+    (hk : w.pixelSize = some k) (P : Nat) (hP : 0 < P) :
+    w.lineRangesIncl P = some (
+      if 2 ≤ numBlocks (w.usedTs.length / k) P then
+        some ((List.range (numBlocks (w.usedTs.length / k) P)).map fun l =>
+          (w.usedTs.getD (l * P * k) 0,
+            w.usedTs.getD (l * P * k) 0 + (w.usedTs.getD (1 * P * k) 0 - w.usedTs.getD (0 * P * k) 0)))
+      else none) := by
+  unfold Wave.lineRangesIncl
+  rw [pixReduce_min w hdt k hk]
+  simp only [kymoImage_row0 P hP, List.length_map, List.length_range]
+  have hrow : ((List.range (numBlocks (w.usedTs.length / k) P)).map fun l =>
+      ((List.range (w.usedTs.length / k)).map fun j => w.usedTs.getD (j * k) 0).getD (l * P) 0)
+      = (List.range (numBlocks (w.usedTs.length / k) P)).map fun l => w.usedTs.getD (l * P * k) 0 := by
+    apply List.map_congr_left
+    intro l hl
+    have hl := (lt_numBlocks_iff _ _ _ hP).mp (List.mem_range.mp hl)
+    rw [getD_map_range _ _ _ hl]
+  rw [hrow]
+  match hn : numBlocks (w.usedTs.length / k) P with
+  | 0 => simp
+  | 1 => simp [List.range_succ_eq_map]
+  | n + 2 =>
+    simp only [List.range_succ_eq_map, List.map_cons, List.map_map]
+    simp
+
 end Verif.C03
